@@ -312,6 +312,27 @@ def p_cli_vs_option(wd, arg):
     return []
 
 
+def p_cli_vs_option_base(wd, name):
+    """the same comparison for the options the probe file normally sets itself: each is given alone"""
+    base = "%option noyywrap nounput noinput"
+    keep = "" if name in ("noyywrap", "yywrap") else "noyywrap"       # nothing else: a leak into a sibling option must show
+    t_opt = spec().replace(base, ("%option " + keep + " " + name).replace("  ", " "))
+    t_cli = spec().replace(base, ("%option " + keep).rstrip() + " " * (len(name) + 1))
+    rc1, e1 = flex(wd, t_opt, [], name="o")
+    rc2, e2 = flex(wd, t_cli, ["--" + name], name="c")
+    if rc1 != rc2:
+        return ["%%option %s exits %s but --%s exits %s (%s | %s)" % (name, rc1, name, rc2, e1.strip()[:80], e2.strip()[:80])]
+    if rc1 != 0:
+        return []
+    a = open(os.path.join(wd, "o.c"), "rb").read().replace(b"o.c", b"X.c").replace(b"o.l", b"X.l")
+    b = open(os.path.join(wd, "c.c"), "rb").read().replace(b"c.c", b"X.c").replace(b"c.l", b"X.l")
+    if a != b:
+        la, lb = a.split(b"\n"), b.split(b"\n")
+        k = next((i for i in range(min(len(la), len(lb))) if la[i] != lb[i]), min(len(la), len(lb)))
+        return ["--%s and %%option %s generate different scanners: line %d: %r vs %r" % (name, name, k + 1, lb[k][:80] if k < len(lb) else b"", la[k][:80] if k < len(la) else b"")]
+    return []
+
+
 PROBES = [("main", p_main, ["opt", "cli"]), ("extra-type", p_extra_type, ["r", "c99"]), ("noyypanic", p_noyypanic, ["nr", "r"]),
           ("lex-compat", p_lex_compat, ["opt", "cli"]), ("prefix", p_prefix, [("nr", ""), ("r", ""), ("r", "bison-bridge"), ("r", "bison-bridge bison-locations"), ("nr", "stack yylineno"),
                                                                        ("r", "stack yylineno"), ("nr", "array"), ("r", "tables-file=\"zz.tbl\""), ("nr", "tables-file=\"zz.tbl\"")]), ("yylmax", p_yylmax, [None]), ("bufsize", p_bufsize, [None]),
@@ -394,6 +415,10 @@ def main(tier):
         for n in both:
             jobs.append((idx, "both:" + n, "p_cli_vs_option", (n, needs.get(n, ""))))
             idx += 1
+        for n in ("nounput", "noinput", "noyyunput", "noyyinput", "noyywrap", "yywrap"):
+            if n in cli_names:
+                jobs.append((idx, "both:" + n, "p_cli_vs_option_base", n))
+                idx += 1
         for extra in ["always-interactive", "never-interactive", "interactive", "batch", "full", "fast", "read", "main", "nomain", "perf-report", "case-insensitive"]:
             if extra in cli_names:
                 jobs.append((idx, "both:" + extra, "p_cli_vs_option", (extra, "")))
